@@ -213,6 +213,52 @@ def oracle_family(ctx, fam, rng, problems):
             problems.append((f"{name}: axis_correlation_matrix probing raised {type(e).__name__}: {e}", {}))
 
 
+def separability_after_edits(ctx, rng, problems):
+    """the correlation matrix must be sound for the WCS as it is NOW: it is read, the pipeline is edited so that axes become coupled
+    (or uncoupled), and the matrix read again must still never claim an independence that evaluation contradicts"""
+    import astropy.units as u
+    from astropy.modeling import models
+    from gwcs import wcs, coordinate_frames as cf
+    for k in range(6 if ctx.quick else 40):
+        n = 2 if k % 3 else 3
+        sh, sc = models.Shift(1.0), models.Scale(2.0)
+        for i in range(1, n):
+            sh, sc = sh & models.Shift(float(i + 1)), sc & models.Scale(0.5 * (i + 2))
+        det = cf.CoordinateFrame(n, ("PIXEL",) * n, tuple(range(n)), unit=(u.pix,) * n, name="detector")
+        mid = cf.CoordinateFrame(n, ("SPATIAL",) * n, tuple(range(n)), unit=(u.mm,) * n, name="focal")
+        out = cf.CoordinateFrame(n, ("SPATIAL",) * n, tuple(range(n)), unit=(u.m,) * n, name="world")
+        w = wcs.WCS([(det, sh), (mid, sc), (out, None)])
+        hist = []
+        for step in range(rng.randint(1, 3)):
+            M0 = np.asarray(w.axis_correlation_matrix)               # read before the edit
+            e = rng.choice(["rotate-before", "rotate-after", "swap", "set-coupled"])
+            rot = (models.Rotation2D(rng.choice([30.0, 60.0])) if n == 2 else
+                   models.Rotation2D(rng.choice([30.0, 60.0])) & models.Identity(1))
+            if e == "rotate-before":
+                w.insert_transform("focal", rot, after=False)
+            elif e == "rotate-after":
+                w.insert_transform("focal", rot, after=True)
+            elif e == "swap":
+                w.insert_transform("world", models.Mapping(tuple(range(n))[::-1]), after=False)
+            else:
+                w.set_transform("detector", "focal", rot | sh)
+            hist.append(e)
+            M = np.asarray(w.axis_correlation_matrix)
+            pt = [rng.uniform(1, 9) for _ in range(n)]
+            base = np.atleast_1d(np.asarray(w.pixel_to_world_values(*pt), dtype=float))
+            ctx.case(key=("sep-edit", k, tuple(hist)), nontrivial=True, kind="separability-after-edit", sample={"axes": n, "edits": list(hist)})
+            for j in range(n):
+                q = list(pt)
+                q[j] += 1.0
+                o = np.atleast_1d(np.asarray(w.pixel_to_world_values(*q), dtype=float))
+                for i in range(n):
+                    if not M[i][j] and o[i] != base[i]:
+                        problems.append((f"after {hist} (matrix read before each edit) axis_correlation_matrix {M.tolist()} says world {i} is independent "
+                                         f"of pixel {j}, but moving pixel {j} from {pt} by 1 changes world {i} from {base[i]} to {o[i]}",
+                                         {"axes": n, "edits": list(hist), "point": pt}))
+                        return
+
+
 PINS = ["gwcs/api.py::GWCSAPIMixin.pixel_n_dim",
         "gwcs/api.py::GWCSAPIMixin.world_n_dim",
         "gwcs/api.py::GWCSAPIMixin.array_index_to_world",
@@ -296,6 +342,7 @@ def run(ctx):
     for rep in range(2 if ctx.quick else 20):
         for fam in families.all_families(rng):
             oracle_family(ctx, fam, rng, problems)
+    separability_after_edits(ctx, rng, problems)
     # known finding probe: the largest double below 0.5
     from gwcs import utils
     if int(utils._toindex(0.49999999999999994)) != 0:
